@@ -22,6 +22,8 @@ import itertools
 import os
 
 from lib import cmd
+import fam_streams as S
+from fam_streams import arg
 
 
 # ----------------------------------------------------------------------------
@@ -75,8 +77,20 @@ def random_simple(rng, n, density, isolated=0.15):
             if u not in dead and v not in dead and rng.random() < density]
 
 
+def on_graph(p, plain, call):
+    """call(G, overrides) on the graph argument of p: built by plain(p) or, for the history stream (p['ops'] is a
+    list of public API calls, see fam_streams), by replaying them -- the generator is then called on the same
+    object at every 'gen' op and the value of the last call is returned."""
+    _impl()
+    if 'ops' in p:
+        return S.replay(p['ops'], call)
+    return call(plain(p), {})
+
+
 def build_bipartite(p):
     _impl()
+    if 'ops' in p:
+        return S.build_only(p['ops'])
     from cnfgen.graphs import BipartiteGraph
     B = BipartiteGraph(p['L'], p['R'])
     edges = [(u + 1, v) for u, row in enumerate(p['adj']) for v in row]
@@ -88,6 +102,8 @@ def build_bipartite(p):
 
 def build_simple(p):
     _impl()
+    if 'ops' in p:
+        return S.build_only(p['ops'])
     from cnfgen.graphs import Graph
     G = Graph(p['n'])
     for k, (u, v) in enumerate(reversed(p['edges'])):
@@ -149,7 +165,7 @@ def php_params(rng, tier):
 def php_build(p, formula_class):
     _impl()
     from cnfgen.families.pigeonhole import PigeonholePrinciple
-    return PigeonholePrinciple(p['m'], p['n'], functional=p['functional'], onto=p['onto'], formula_class=formula_class)
+    return PigeonholePrinciple(p['m'], p['n'], functional=arg(p, 'functional'), onto=arg(p, 'onto'), formula_class=formula_class)
 
 
 def php_decode_ok(p, a):
@@ -219,7 +235,10 @@ def gphp_params(rng, tier):
 def gphp_build(p, formula_class):
     _impl()
     from cnfgen.families.pigeonhole import GraphPigeonholePrinciple
-    return GraphPigeonholePrinciple(build_bipartite(p), functional=p['functional'], onto=p['onto'], formula_class=formula_class)
+    def call(B, over):
+        q = dict(p, **over)
+        return GraphPigeonholePrinciple(B, functional=arg(q, 'functional'), onto=arg(q, 'onto'), formula_class=formula_class)
+    return on_graph(p, build_bipartite, call)
 
 
 def gphp_decode_ok(p, a):
@@ -455,7 +474,7 @@ def matching_params(rng, tier):
 def matching_build(p, formula_class):
     _impl()
     from cnfgen.families.counting import PerfectMatchingPrinciple
-    return PerfectMatchingPrinciple(build_simple(p), formula_class=formula_class)
+    return on_graph(p, build_simple, lambda G, over: PerfectMatchingPrinciple(G, formula_class=formula_class))
 
 
 def matching_decode_ok(p, a):
@@ -506,7 +525,9 @@ def subsetcard_params(rng, tier):
 def subsetcard_build(p, formula_class):
     _impl()
     from cnfgen.families.subsetcardinality import SubsetCardinalityFormula
-    return SubsetCardinalityFormula(build_bipartite(p), p['equalities'], formula_class=formula_class)
+    def call(B, over):
+        return SubsetCardinalityFormula(B, arg(dict(p, **over), 'equalities'), formula_class=formula_class)
+    return on_graph(p, build_bipartite, call)
 
 
 def subsetcard_decode_ok(p, a):
@@ -613,41 +634,235 @@ def cliquecol_cli(p, tmpdir):
     return ['cliquecoloring', str(p['n']), str(p['k']), str(p['c'])]
 
 
+
+# ----------------------------------------------------------------------------
+# threshold / shape / history streams (notes/LARGE_STREAMS.md, harness/fam_streams.py)
+# ----------------------------------------------------------------------------
+def _st(ps, stream):
+    for q in ps:
+        q['stream'] = stream
+        q['big'] = True
+    return ps
+
+
+BB = [(False, False), (False, True), (True, False), (True, True)]
+
+
+def php_streams(rng, tier):
+    quick = tier == 'quick'
+    out = []
+    for t in S.TH:
+        for (m, n) in ((1, t), (t, 1), (2, t), (t, 2), (3, t)):
+            cost = lambda f: n * m * (m - 1) // 2 + (m * n * (n - 1) // 2 if f else 0)
+            for (f, o) in BB:
+                if cost(f) > (17000 if quick else 600000) and not (quick and (m, n, f, o) in ((2, 257, True, True), (257, 2, False, True))):
+                    continue
+                if t > 129 and (f, o) in ((False, True), (True, False)) and rng.random() < 0.5:
+                    continue
+                out.append(dict(m=m, n=n, functional=f, onto=o))
+    out += [dict(m=16, n=17, functional=True, onto=True), dict(m=17, n=16, functional=True, onto=False),
+            dict(m=33, n=32, functional=False, onto=True)]
+    _st(out, 'thresholds')
+    sh = S.flag_shapes(rng, ['functional', 'onto'], [dict(m=m, n=n) for m in range(0, 5) for n in range(0, 5)], per_value=1 if quick else 4)
+    return _st(sh, 'shapes') + out
+
+
+def bphp_streams(rng, tier):
+    quick = tier == 'quick'
+    ns = sorted(set(S.TH + [31, 32, 33, 511, 512, 513, 1023, 1024]))
+    out = [dict(m=2, n=n) for n in ns] + [dict(m=3, n=n) for n in ns if n <= (129 if quick else 1025)]
+    out += [dict(m=m, n=n) for m in (15, 16, 17, 64, 65) for n in (2, 3, 4, 5)]
+    if not quick:
+        out += [dict(m=m, n=n) for m in (128, 129, 257) for n in (2, 3)] + [dict(m=1, n=n) for n in (2047, 2048, 2049, 4097)]
+    return _st(out, 'thresholds')
+
+
+def rphp_streams(rng, tier):
+    quick = tier == 'quick'
+    out = []
+    for t in S.TH:
+        out += [dict(m=1, r=1, n=t), dict(m=2, r=2, n=t), dict(m=0, r=t, n=0), dict(m=t, r=0, n=t)]
+        if t <= (258 if quick else 1025):
+            out += [dict(m=t, r=1, n=1)]
+        if t <= (65 if quick else 300):
+            out += [dict(m=1, r=t, n=1), dict(m=2, r=t, n=2)]
+        if t <= (65 if quick else 129):
+            out += [dict(m=t, r=2, n=2), dict(m=t, r=2, n=1)]
+    if quick:
+        out += [dict(m=1, r=129, n=1), dict(m=129, r=2, n=1), dict(m=1, r=257, n=0)]
+    return _st(out, 'thresholds')
+
+
+def count_streams(rng, tier):
+    quick = tier == 'quick'
+    out = [dict(M=M, p=1) for M in S.TH if M <= (300 if quick else 1025)]
+    out += [dict(M=M, p=2) for M in (15, 16, 17, 24, 33)]
+    out += [dict(M=M, p=3) for M in (15, 16, 17)]
+    out += [dict(M=M, p=M - d) for M in (15, 16, 17) for d in (0, 1)] + [dict(M=M, p=M + 1) for M in (15, 16, 17)]
+    if not quick:
+        out += [dict(M=M, p=2) for M in (63, 64, 65)] + [dict(M=20, p=20), dict(M=20, p=19), dict(M=18, p=16)]
+    return _st(out, 'thresholds')
+
+
+HUBS = (15, 16, 17, 63, 64, 65, 127, 128, 129, 256, 257)
+
+
+def matching_streams(rng, tier):
+    out = []
+    for d in HUBS:
+        n = d + 1
+        out.append(dict(n=n, edges=S.star(n, hub=(1, n, n // 2)[d % 3])))
+    out.append(dict(n=262, edges=S.star(258) + [[259, 260]]))                 # hub of degree 257 and isolated vertices
+    for n in (16, 17, 64, 65, 128, 129, 256, 257, 258, 300, 1000, 1025):
+        out.append(dict(n=n, edges=S.path(n) if n % 2 else S.cycle(n)))
+    out += [dict(n=2 * k, edges=S.two_cycles(k)) for k in (8, 64, 128, 129)]
+    out += [dict(n=n, edges=[]) for n in (17, 300)]
+    out.append(dict(n=40, edges=S.hub_on_path(40, 17, hub=40)))
+    out.append(dict(n=20, edges=S.complete_minus(20, [[1, 20], [3, 4]])))
+    _st(out, 'thresholds')
+    hist = []
+    for i in range(8 if tier == 'quick' else 80):
+        for ops, fl, st in S.history_points(S.simple_history(rng), []):
+            n, es = S.simple_fields(st)
+            hist.append(dict(n=n, edges=es, ops=ops))
+    return _st(hist, 'history') + out
+
+
+def _ring(L, R, d):
+    """left vertex i sees i, i+1, ..., i+d-1 (mod R): all degrees about d when L = R"""
+    return [sorted({1 + ((i + j) % R) for j in range(d)}) if R else [] for i in range(L)]
+
+
+def _huge_sides(rng, tier):
+    """vertex NUMBERS of 65535 and more on a sparse graph (formula of a handful of variables)"""
+    out = []
+    for R in (65535, 65536, 65537, 70000):
+        adj = [sorted({1, R - 1, R}), sorted({R - 2, R}) if R % 2 else sorted({65535, R}), [], [2, R]]
+        out.append(dict(L=4, R=R, adj=adj, fast=True))
+    out.append(dict(L=2, R=131073, adj=[[65536, 65537, 131072, 131073], [1, 65537]], fast=True))
+    L = 65537
+    out.append(dict(L=L, R=3, adj=[[1, 2]] + [[] for _ in range(L - 3)] + [[2, 3], [1, 3]], fast=True))
+    return out
+
+
+def gphp_streams(rng, tier):
+    quick = tier == 'quick'
+    out = []
+    for d in HUBS:
+        fo = rng.sample(BB, 2)
+        out.append(dict(L=1, R=d, adj=[list(range(1, d + 1))], functional=fo[0][0], onto=fo[0][1]))
+        out.append(dict(L=d, R=2, adj=[[1] if i % 5 else [1, 2] for i in range(d)], functional=fo[1][0], onto=fo[1][1]))
+        out.append(dict(L=3, R=d + 2, adj=[[1, d + 2], list(range(2, d + 2)), []], functional=True, onto=True))
+    for t in (16, 17, 64, 65, 128, 129, 256, 257, 258, 300, 1000, 1025):
+        (f, o) = rng.choice(BB)
+        out.append(dict(L=t, R=t, adj=_ring(t, t, 2), functional=f, onto=o))
+        out.append(dict(L=0, R=t, adj=[], functional=f, onto=not o))                       # empty sides
+        out.append(dict(L=t, R=0, adj=[[] for _ in range(t)], functional=not f, onto=o))
+    out.append(dict(L=16, R=17, adj=_ring(16, 17, 17), functional=True, onto=True))       # complete
+    out.append(dict(L=130, R=130, adj=_ring(65, 65, 3) + [[v + 65 for v in r] for r in _ring(65, 65, 3)], functional=False, onto=True))  # two equal components
+    for i, q in enumerate(_huge_sides(rng, tier)):
+        if quick and q['R'] in (65535, 131073):
+            continue
+        for (f, o) in (BB if not quick else [BB[(i + 2) % 4]]):
+            out.append(dict(q, functional=f, onto=o))
+    _st(out, 'thresholds')
+    sh = S.flag_shapes(rng, ['functional', 'onto'],
+                       [dict(L=L, R=R, adj=random_bipartite(rng, L, R, 0.6)) for L in range(1, 4) for R in range(1, 4)], per_value=1 if quick else 4)
+    hist = []
+    for i in range(8 if quick else 80):
+        phases = S.bipartite_history(rng)
+        fls = [dict(functional=f, onto=o) for (f, o) in rng.sample(BB, 3)]
+        for ops, fl, st in S.history_points(phases, fls):
+            hist.append(dict(fl, L=st['L'], R=st['R'], adj=S.bip_adj(st), ops=ops))
+    return _st(sh, 'shapes') + _st(hist, 'history') + out
+
+
+def subsetcard_streams(rng, tier):
+    quick = tier == 'quick'
+    out = []
+    for d in (8, 9, 11, 12):           # the CNF of a majority over d edges has C(d, d/2) clauses: degrees stay small
+        out.append(dict(L=1, R=d, adj=[list(range(1, d + 1))], equalities=d % 2 == 0))
+        out.append(dict(L=d, R=1, adj=[[1] for _ in range(d)], equalities=d % 2 == 1))
+    for t in (16, 17, 64, 65, 128, 129, 256, 257, 258, 300, 1000, 1025):
+        out.append(dict(L=t, R=t, adj=_ring(t, t, 3 if t % 2 else 4), equalities=t % 4 < 2))
+        out.append(dict(L=0, R=t, adj=[], equalities=t % 2 == 0))
+        out.append(dict(L=t, R=0, adj=[[] for _ in range(t)], equalities=t % 2 == 1))
+        if t <= 300:
+            out.append(dict(L=t, R=2 * t, adj=[[i + 1, t + i + 1] for i in range(t)], equalities=t % 3 == 0))    # right degree 1, left 2
+    for i, q in enumerate(_huge_sides(rng, tier)):
+        if quick and q['R'] not in (65536, 70000):
+            continue
+        for eq in ((False, True) if not quick else (i % 2 == 0,)):
+            out.append(dict(q, equalities=eq))
+    _st(out, 'thresholds')
+    sh = S.flag_shapes(rng, ['equalities'],
+                       [dict(L=L, R=R, adj=random_bipartite(rng, L, R, 0.6)) for L in range(1, 4) for R in range(1, 4)], per_value=1 if quick else 4)
+    hist = []
+    for i in range(8 if quick else 80):
+        phases = S.bipartite_history(rng, maxdeg=8)
+        fls = [dict(equalities=e) for e in rng.sample([False, True, False, True], 3)]
+        for ops, fl, st in S.history_points(phases, fls):
+            hist.append(dict(fl, L=st['L'], R=st['R'], adj=S.bip_adj(st), ops=ops))
+    return _st(sh, 'shapes') + _st(hist, 'history') + out
+
+
+def cliquecol_streams(rng, tier):
+    out = [dict(n=n, k=k, c=c) for (n, k, c) in
+           ((15, 2, 2), (16, 2, 2), (17, 2, 2), (16, 3, 3), (17, 1, 3), (33, 2, 1), (8, 15, 2), (8, 16, 2), (8, 17, 2), (8, 2, 15), (8, 2, 16),
+            (8, 2, 17), (5, 33, 1), (5, 1, 33), (17, 17, 0), (17, 0, 17), (32, 1, 1), (33, 1, 1))]
+    if tier != 'quick':
+        out += [dict(n=n, k=k, c=c) for (n, k, c) in ((63, 1, 1), (64, 1, 1), (65, 1, 1), (65, 2, 2), (4, 65, 1), (4, 1, 65), (4, 129, 1), (4, 2, 257))]
+    return _st(out, 'thresholds')
+
+
+# instances on which the *_fast driver commands are compared with the extracted functions themselves
+def fast_check_params(rng, tier):
+    out = []
+    for R in (0, 1, 7, 300, 3000):
+        for L in (0, 1, 3, 40):
+            adj = random_bipartite(rng, L, R, 0.5 if R < 10 else 3.0 / max(1, R), maxdeg=9)
+            out.append(('gphp', dict(L=L, R=R, adj=adj, functional=rng.random() < .5, onto=rng.random() < .5)))
+            out.append(('subsetcard', dict(L=L, R=R, adj=adj, equalities=rng.random() < .5)))
+    return out
+
 # ----------------------------------------------------------------------------
 FAMILIES = [
-    dict(name='php', prop='C01', params=php_params, build=php_build,
+    dict(name='php', prop='C01', params=php_params, streams=php_streams, build=php_build,
          request=lambda p: cmd('fam_php', p['m'], p['n'], p['functional'], p['onto']),
          numvar_doc=lambda p: p['m'] * p['n'], decode_ok=php_decode_ok, exists=php_exists, cli=php_cli,
          site='PigeonholePrinciple'),
     dict(name='gphp', prop='C01', params=gphp_params, build=gphp_build,
-         request=lambda p: cmd('fam_gphp', p['adj'], p['R'], p['functional'], p['onto']),
+         # p['fast']: the same model through native ranges (ocaml/glue_fam_c01.ml), for sides of >= 65535 vertices
+         request=lambda p: cmd('fam_gphp_fast' if p.get('fast') else 'fam_gphp', p['adj'], p['R'], p['functional'], p['onto']),
+         streams=gphp_streams,
          numvar_doc=lambda p: sum(len(r) for r in p['adj']), decode_ok=gphp_decode_ok, exists=gphp_exists, cli=gphp_cli,
          site='GraphPigeonholePrinciple'),
-    dict(name='bphp', prop='C01', params=bphp_params, build=bphp_build,
+    dict(name='bphp', prop='C01', params=bphp_params, streams=bphp_streams, build=bphp_build,
          request=lambda p: cmd('fam_bphp', p['m'], p['n']),
          numvar_doc=bphp_numvar, decode_ok=bphp_decode_ok, exists=bphp_exists, cli=bphp_cli,
          site='BinaryPigeonholePrinciple',
          # documented domain: pigeons, holes >= 0.  The code (and the faithful model) raise below 1.
          documented_valid=lambda p: p['m'] >= 0 and p['n'] >= 0,
          spec_request=lambda p: cmd('fam_bphp_spec', p['m'], p['n'])),
-    dict(name='rphp', prop='C01', params=rphp_params, build=rphp_build,
+    dict(name='rphp', prop='C01', params=rphp_params, streams=rphp_streams, build=rphp_build,
          request=lambda p: cmd('fam_rphp', p['m'], p['r'], p['n']),
          numvar_doc=lambda p: p['m'] * p['r'] + p['r'] * p['n'] + p['r'], decode_ok=rphp_decode_ok, exists=rphp_exists,
          cli=lambda p, tmpdir: ['rphp', str(p['m']), str(p['r']), str(p['n'])],
          site='RelativizedPigeonholePrinciple'),
-    dict(name='count', prop='C01', params=count_params, build=count_build,
+    dict(name='count', prop='C01', params=count_params, streams=count_streams, build=count_build,
          request=lambda p: cmd('fam_count', p['M'], p['p']),
          numvar_doc=lambda p: comb(p['M'], p['p']), decode_ok=count_decode_ok, exists=count_exists, cli=count_cli,
          site='CountingPrinciple'),
-    dict(name='matching', prop='C01', params=matching_params, build=matching_build,
+    dict(name='matching', prop='C01', params=matching_params, streams=matching_streams, build=matching_build,
          request=lambda p: cmd('fam_matching', p['n'], p['edges']),
          numvar_doc=lambda p: len(p['edges']), decode_ok=matching_decode_ok, exists=matching_exists, cli=matching_cli,
          site='PerfectMatchingPrinciple'),
     dict(name='subsetcard', prop='C01', params=subsetcard_params, build=subsetcard_build,
-         request=lambda p: cmd('fam_subsetcard', p['adj'], p['R'], p['equalities']),
+         request=lambda p: cmd('fam_subsetcard_fast' if p.get('fast') else 'fam_subsetcard', p['adj'], p['R'], p['equalities']),
+         streams=subsetcard_streams,
          numvar_doc=lambda p: sum(len(r) for r in p['adj']), decode_ok=subsetcard_decode_ok, exists=subsetcard_exists,
          cli=subsetcard_cli, site='SubsetCardinalityFormula'),
-    dict(name='cliquecol', prop='C01', params=cliquecol_params, build=cliquecol_build,
+    dict(name='cliquecol', prop='C01', params=cliquecol_params, streams=cliquecol_streams, build=cliquecol_build,
          request=lambda p: cmd('fam_cliquecol', p['n'], p['k'], p['c']),
          numvar_doc=lambda p: comb(p['n'], 2) + p['k'] * p['n'] + p['n'] * p['c'], decode_ok=cliquecol_decode_ok,
          exists=cliquecol_exists, cli=cliquecol_cli, site='CliqueColoring'),
